@@ -34,6 +34,10 @@ def _case(draw):
         if draw(st.integers(0, 2)) == 0:
             ops.append({'op': 'eval', 'seed': draw(st.integers(0, 999))})
         op = {'op': 'train', 'seed': draw(st.integers(0, 999))}
+        if i > 0 and draw(st.integers(0, 3)) == 0:
+            # fine-tuning style: some registered layers are put in eval mode for this whole iteration (only after a first ordinary
+            # iteration, so that they already have factors); their K-FAC state must not change
+            op['eval_modules'] = draw(st.lists(st.integers(0, 5), min_size=1, max_size=3))
         if draw(st.integers(0, 3)) == 0:
             # an eval-mode forward + input-gradient (saliency / validation) pass in the MIDDLE of the iteration: after micro-batch
             # number eval_mid (taken modulo accumulation_steps), i.e. between micro-batches or between the last backward and step()
@@ -58,11 +62,13 @@ def _mid_eval(models, case, seed, pd):
     import torch
     from vkit import kmodel
     for m in models:
+        modes = [(sub, sub.training) for sub in m.modules()]
         m.eval()
         x = kmodel.make_input(case['spec'], case['N'], seed + 31337, case['style'], pd).clone().requires_grad_(True)
         loss = kmodel.loss_of(m(x), seed + 5, case['N'])
         torch.autograd.grad(loss, x, allow_unused=True)
-        m.train()
+        for sub, was in modes:           # every module back to the mode it was in (some may be in eval mode on purpose)
+            sub.training = was
 
 
 def _kfac_only_run(case, program, kw, with_mid_eval=True):
@@ -75,12 +81,17 @@ def _kfac_only_run(case, program, kw, with_mid_eval=True):
     with warnings.catch_warnings():
         warnings.simplefilter('ignore')
         pre = KFACPreconditioner(model, **kw)
+    reg_names = sorted(pre.state_dict()['layers'])
     scale = case['loss_scale'] or 1.0
     accum = case.get('accum', 1)
     out = []
     for op in program:
         train = op['op'] == 'train'
         model.train(train)
+        if train and op.get('eval_modules') and reg_names:
+            mods_ = dict(model.named_modules())
+            for idx in op['eval_modules']:
+                mods_[reg_names[idx % len(reg_names)]].eval()
         model.zero_grad(set_to_none=True)
         for micro in range(accum if train else 1):
             x = kmodel.make_input(case['spec'], case['N'], op['seed'] + 7919 * micro, case['style'], pd)
@@ -115,7 +126,7 @@ class C10(Prop):
     rule = ('Hypothesis draws a runnable model of 1-4 supported layers interleaved with unsupported trainable modules (LayerNorm, BatchNorm2d, '
             'an affine module), contiguous or dense non-contiguous batches (channels_last for 4-d inputs, transposed storage otherwise), residual blocks x + fn(x) around registered Linear/Conv2d layers, wholly or partly frozen layers, 0-2 skip '
             'patterns (names and class names), parameter dtype float32/float64/bfloat16, factor and inverse dtypes, both methods, optional loss '
-            'scale with grad_scaler, forward passes optionally inside torch.autocast(bfloat16), accumulation_steps 1-3, and a sequence of eval passes and 1-3 train steps, some with an eval-mode forward + input-gradient pass in the middle of the iteration (between micro-batches or between the last backward and step()). Oracle: around every step() all parameters and buffers '
+            'scale with grad_scaler, forward passes optionally inside torch.autocast(bfloat16), accumulation_steps 1-3, and a sequence of eval passes and 1-3 train steps, some iterations (not the first) with a subset of the registered layers in eval mode (fine-tuning style; their factors must not change), some with an eval-mode forward + input-gradient pass in the middle of the iteration (between micro-batches or between the last backward and step()). Oracle: around every step() all parameters and buffers '
             'bit-identical, gradients of parameters outside the registered layers bit-identical (None stays None), registered gradients keep '
             'shape, dtype, device, contiguity and are finite; around eval-mode forward/backward passes state_dict(), memory_usage() and steps '
             'unchanged, and the same history without the eval passes gives bit-identical post-step gradients and final factors; outputs and autograd gradients bit-identical to a twin model without K-FAC (fed its own copy of the batch) in every pass, the batch itself left unmodified and no pass failing only with K-FAC registered. Non-trivial: >= 1 registered '
@@ -124,8 +135,8 @@ class C10(Prop):
                    'bit-identity with the twin relies on deterministic CPU kernels (torch.use_deterministic_algorithms is not required for these ops)']
     examples = {'quick': 400, 'thorough': 1200}
     shards = {'quick': 4, 'thorough': 16}
-    required_labels = {'quick': ['nontrivial=True', 'param_dtype=bfloat16', 'param_dtype=float64', 'residual=True', 'frozen=True', 'skipped=True', 'mem_format=channels_last', 'factor_dtype_is_param_dtype=True', 'mid_iteration_eval=True', 'autocast=True'],
-                       'thorough': ['nontrivial=True', 'param_dtype=bfloat16', 'param_dtype=float64', 'residual=True', 'frozen=True', 'skipped=True', 'mem_format=channels_last', 'factor_dtype_is_param_dtype=True', 'mid_iteration_eval=True', 'autocast=True']}
+    required_labels = {'quick': ['nontrivial=True', 'param_dtype=bfloat16', 'param_dtype=float64', 'residual=True', 'frozen=True', 'skipped=True', 'mem_format=channels_last', 'factor_dtype_is_param_dtype=True', 'mid_iteration_eval=True', 'autocast=True', 'mixed_modes=True'],
+                       'thorough': ['nontrivial=True', 'param_dtype=bfloat16', 'param_dtype=float64', 'residual=True', 'frozen=True', 'skipped=True', 'mem_format=channels_last', 'factor_dtype_is_param_dtype=True', 'mid_iteration_eval=True', 'autocast=True', 'mixed_modes=True']}
 
     def strategy(self, tier):
         return _case()
@@ -181,7 +192,7 @@ class C10(Prop):
         scale = case['loss_scale'] or 1.0
         accum = case.get('accum', 1)
         unreg_trainable = any(p.requires_grad for n, p in model.named_parameters() if n not in reg_params)
-        saw_eval = saw_mid_eval = False
+        saw_eval = saw_mid_eval = saw_mixed = False
         import contextlib
         # mixed precision as documented: forward passes inside torch.autocast (float32 parameters only)
         use_amp = bool(case.get('autocast')) and case['param_dtype'] == 'float32'
@@ -193,6 +204,16 @@ class C10(Prop):
             for m in (model, twin):
                 m.train(train)
                 m.zero_grad(set_to_none=True)
+            frozen_now, sd_frozen = [], None
+            if train and op.get('eval_modules') and registered:
+                reg_names = sorted(registered)
+                mm, tm = dict(model.named_modules()), dict(twin.named_modules())
+                frozen_now = sorted({reg_names[idx % len(reg_names)] for idx in op['eval_modules']})
+                for nm in frozen_now:
+                    mm[nm].eval()
+                    tm[nm].eval()
+                sd_frozen = pre.state_dict()['layers']
+                saw_mixed = True
             if not train:
                 sd0 = pre.state_dict()
                 mem0 = dict(pre.memory_usage())
@@ -285,6 +306,14 @@ class C10(Prop):
             for n, b in model.named_buffers():
                 if not torch.equal(b, bufs0[n]):
                     return violation(f'op {i}: step() changed buffer {n}', 'buffer-changed', labels=labels)
+            if frozen_now:
+                sd_after = pre.state_dict()['layers']
+                for nm in frozen_now:
+                    for f in ('A', 'G'):
+                        a, b = sd_frozen[nm][f], sd_after[nm][f]
+                        if (a is None) != (b is None) or (a is not None and not torch.equal(a, b)):
+                            return violation(f'op {i}: layer {nm} was in eval mode during the whole iteration (other layers in train mode) but its factor {f} changed',
+                                             'eval-changed-state', labels=labels)
             # identical bounded update on model and twin
             with torch.no_grad():
                 for (n1, p1), (n2, p2) in zip(model.named_parameters(), twin.named_parameters()):
@@ -318,6 +347,7 @@ class C10(Prop):
                                              f'without them (accumulation_steps={accum}, in_hook={case["in_hook"]})', 'eval-changed-state', labels=labels)
         labels['accum'] = accum
         labels['mid_iteration_eval'] = saw_mid_eval
+        labels['mixed_modes'] = saw_mixed
         nt = bool(registered) and unreg_trainable and (labels['skipped'] or labels['frozen'] or case['param_dtype'] != 'float32' or saw_eval or has_res)
         labels['nontrivial'] = nt
         return passed(nt, labels)
